@@ -346,7 +346,7 @@ def f3_join(ctx: Ctx):
                    "the merge with an empty base path does not distinguish whether the base has an authority "
                    "(RFC 3986 5.2.3: '/' is prepended only under an authority)", node, "")
         else:
-            mentions_bp = any(t == bp or (t[0] == "attr" and t[1] == B and t[2] in ("raw_parts", "parts", "_path")) for t in walk(core))
+            mentions_bp = any(t == bp or (t[0] == "attr" and t[1] == B and t[2] in ("raw_parts", "parts", "_path", "raw_path")) for t in walk(core))
             mentions_rp = any(t == rp for t in walk(core))
             ob("merge", "merge of the base directory and the reference path", mentions_bp and mentions_rp,
                "a rootless reference path must be merged with the base path's directory", node, "base directory + url._path")
